@@ -189,6 +189,12 @@ theorem kidsOK_mem (p : Nat) (cs : List Node) (h : kidsOK p cs = true) (c : Node
     · exact ⟨h.1.1, h.1.2⟩
     · exact ih h.2 hc
 
+theorem linksOK_clearParent (n : Node) : linksOK n.clearParent = linksOK n := by
+  cases n <;> simp [Node.clearParent, linksOK]
+
+theorem parent_clearParent (n : Node) : n.clearParent.parent = none := by
+  cases n <;> simp [Node.clearParent, Node.parent]
+
 theorem run_links (g : Bool) (c : Cfg) (bs : Bytes) (h : LInv c) (n : Node) (e : run g c bs = .node n) :
     linksOK n = true := by
   induction bs generalizing c with
@@ -204,6 +210,7 @@ theorem run_links (g : Bool) (c : Cfg) (bs : Bytes) (h : LInv c) (n : Node) (e :
         have := h f (by simp [hs])
         rw [hm] at this
         simp only [kidsOK, Bool.and_eq_true, beq_iff_eq] at this
+        rw [linksOK_clearParent]
         exact this.1.2
       · simp at e
   | cons ch rest ih =>
@@ -226,6 +233,31 @@ theorem decode_links (g : Bool) (x : Bytes) (n : Node) (e : decodeG g x = .node 
   split at e
   · simp at e
   · exact run_links g _ _ linv_init n e
+
+theorem run_root_parent (g : Bool) (c : Cfg) (bs : Bytes) (n : Node) (e : run g c bs = .node n) : n.parent = none := by
+  induction bs generalizing c with
+  | nil =>
+    unfold run finish at e
+    split at e
+    · simp at e
+    · split at e
+      · simp only [Result.node.injEq] at e
+        subst e
+        exact parent_clearParent _
+      · simp at e
+  | cons ch rest ih =>
+    unfold run at e
+    split at e
+    · rename_i c' _; exact ih c' e
+    · simp at e
+    · simp at e
+
+theorem decode_root_parent (g : Bool) (x : Bytes) (n : Node) (e : decodeG g x = .node n) : n.parent = none := by
+  unfold decodeG at e
+  simp only at e
+  split at e
+  · simp at e
+  · exact run_root_parent g _ _ n e
 
 /-! ## feeding a prefix -/
 
